@@ -60,6 +60,14 @@ def run(ctx: Ctx) -> None:
     from .c04 import counted_bodies
     counted_bodies(ctx, rows, [c for c in base if c.status == "ok" and not c.render_exc and not c.lift_exc], prefix="C03.6")
     il_runs_to_end(ctx, py)
+    # ... and the IL that is run is the IL of the bytes that are there now: the emulator fetch has no instruction memo (shared with C06/C07)
+    from ..memo import memo_findings
+    ctx.file_used(REPO / isa.EMU_PY)
+    fn_ = py.func(isa.EMU_PY, "Emulator.decode_instruction")
+    for ln, what in memo_findings(py.module(isa.EMU_PY), fn_, ("address",), True):
+        ctx.violation("C03.7/fetch-live", key_of(isa.EMU_PY, "Emulator.decode_instruction", "instruction remembered across steps"),
+                      what + " - the executed IL touches the operands of an earlier decode, not the ones the text of the current bytes names", f"{isa.EMU_PY}:{ln}")
+    ctx.instance("C03.7/fetch-live", "the emulator fetch decodes from memory on every step (no instruction memo)", 1, 1)
 
 
 # ---------------------------------------------------------------------------
